@@ -36,7 +36,7 @@ LOGIN_WHAT = ("the login route set a session cookie on this case although the co
 def run(ctx):
     return standard(ctx,
         props=[("Props.C06", THEOREMS)],
-        harness=("TestVerif_C06", ["kmd/common.go", "kmd/creds.go", "kmd/consts.go", "kmd/vdevice.go", "kmd/c06.go"]),
+        harness=("TestVerif_C06", ["kmd/common.go", "kmd/creds.go", "kmd/consts.go", "kmd/vdevice.go", "kmd/c06.go", "kmd/c06_hist.go", "kmd/c06_role.go"]),
         obl=("Obl_C06.v", ["c06_routes_classified", "c06_no_stale_rows", "c06_keys_unique"]),
         cases=("CasesC06.v", [("c06_gate_mismatches", "checkAuth (user, level, status, issue instant) = model check_auth on every shape (single credentials and certificate x cookie x basic-auth combinations) x mask x method x origin x deny list", "CasesC06_gate.idx"),
                               ("c06_route_mismatches", "per route of the regenerated mux: logged identity = model, observed effects within the model's"),
